@@ -1,8 +1,1243 @@
 import Grass.Proto
-/- Core `Selector` — stub; replaced by the model (see DESIGN.md §8). -/
+/-
+  C11 / C10 core — selectors.
+  Mirrors crates/compiler/src/selector/{simple,compound,complex,list,parse}.rs and the selector
+  built-ins of builtin/functions/selector.rs.
+
+  Representation.  A top-level complex selector is grass's `Vec<ComplexSelectorComponent>`
+  (`Complex = List Component`, descendant combinators implicit, stray combinators representable).
+  The argument of a selector pseudo (`:not(S)`, `:is(S)`, …) is stored in *right-to-left normal
+  form* (`RComplex`: the target compound, then the (relation, compound) steps going leftwards) so
+  that the matching semantics is one structural recursion.  `norm`/`RComplex.toComps` convert.
+
+  Not modelled (the parser answers `unsupported`): namespaces, attribute operators other than
+  `[t]`/`[t=v]`, pseudo arguments that are not selectors (`:nth-child(2n)`), `:has/:host/:slotted/
+  :current`, escapes in identifiers.  `Pseudo::eq` ignores `is_syntactic_class` (simple.rs:426);
+  the model drops that field (a pseudo-element is `pelem name`, printed `::name`).
+-/
 namespace Grass.Selector
 
+abbrev Name := List Char
+
+/-- grass `Combinator` (complex.rs:274). -/
+inductive Comb where
+  | child | next | later
+  deriving DecidableEq, Repr, Inhabited
+
+/-- Relation between two adjacent compounds, descendant made explicit. -/
+inductive Rel where
+  | desc | child | next | later
+  deriving DecidableEq, Repr, Inhabited
+
+def Comb.rel : Comb → Rel
+  | .child => .child | .next => .next | .later => .later
+
+/-- Selector pseudos whose argument is a selector list (simple.rs:499 `matches|is|any|where`, `not`). -/
+inductive PName where
+  | not | is | where_ | matches | any
+  deriving DecidableEq, Repr, Inhabited
+
+inductive Simple where
+  | univ
+  | type (n : Name)
+  | cls (n : Name)
+  | id (n : Name)
+  | attr (n : Name) (v : Option Name)
+  | pclass (n : Name)                 -- opaque pseudo-class (`:hover`)
+  | pelem (n : Name)                  -- pseudo-element (`::before`, `:after`)
+  | placeholder (n : Name)
+  | parent (suffix : Option Name)     -- `&`, `&-suffix`
+  | sel (k : PName) (arg : List (List Simple × List (Rel × List Simple)))
+  deriving Repr, Inhabited
+
+abbrev Compound := List Simple
+abbrev RSteps := List (Rel × Compound)
+/-- right-to-left normal form: target compound, then steps leftwards -/
+abbrev RComplex := Compound × RSteps
+
+/-! ### equality (hand-written: `deriving DecidableEq` does not handle nested inductives) -/
+mutual
+def Simple.beq : Simple → Simple → Bool
+  | .univ, .univ => true
+  | .type a, .type b => a == b
+  | .cls a, .cls b => a == b
+  | .id a, .id b => a == b
+  | .attr a v, .attr b w => a == b && v == w
+  | .pclass a, .pclass b => a == b
+  | .pelem a, .pelem b => a == b
+  | .placeholder a, .placeholder b => a == b
+  | .parent a, .parent b => a == b
+  | .sel k a, .sel k' b => k == k' && beqRL a b
+  | _, _ => false
+def beqSL : List Simple → List Simple → Bool
+  | [], [] => true
+  | a :: as, b :: bs => Simple.beq a b && beqSL as bs
+  | _, _ => false
+def beqSteps : List (Rel × List Simple) → List (Rel × List Simple) → Bool
+  | [], [] => true
+  | (c, a) :: as, (d, b) :: bs => c == d && beqSL a b && beqSteps as bs
+  | _, _ => false
+def beqRL : List (List Simple × List (Rel × List Simple)) → List (List Simple × List (Rel × List Simple)) → Bool
+  | [], [] => true
+  | (t, r) :: as, (t', r') :: bs => beqSL t t' && beqSteps r r' && beqRL as bs
+  | _, _ => false
+end
+
+mutual
+theorem Simple.beq_iff : ∀ (a b : Simple), Simple.beq a b = true ↔ a = b
+  | .univ, b => by cases b <;> simp [Simple.beq]
+  | .type a, b => by cases b <;> simp [Simple.beq]
+  | .cls a, b => by cases b <;> simp [Simple.beq]
+  | .id a, b => by cases b <;> simp [Simple.beq]
+  | .attr a v, b => by cases b <;> simp [Simple.beq]
+  | .pclass a, b => by cases b <;> simp [Simple.beq]
+  | .pelem a, b => by cases b <;> simp [Simple.beq]
+  | .placeholder a, b => by cases b <;> simp [Simple.beq]
+  | .parent a, b => by cases b <;> simp [Simple.beq]
+  | .sel k a, b => by
+    cases b <;> simp [Simple.beq]
+    rename_i k' b
+    intro _; exact beqRL_iff a b
+theorem beqSL_iff : ∀ (a b : List Simple), beqSL a b = true ↔ a = b
+  | [], b => by cases b <;> simp [beqSL]
+  | a :: as, b => by
+    cases b with
+    | nil => simp [beqSL]
+    | cons b bs => simp [beqSL, Simple.beq_iff a b, beqSL_iff as bs]
+theorem beqSteps_iff : ∀ (a b : List (Rel × List Simple)), beqSteps a b = true ↔ a = b
+  | [], b => by cases b <;> simp [beqSteps]
+  | (c, a) :: as, b => by
+    cases b with
+    | nil => simp [beqSteps]
+    | cons b bs =>
+      obtain ⟨d, b⟩ := b
+      simp [beqSteps, beqSL_iff a b, beqSteps_iff as bs, and_assoc]
+theorem beqRL_iff : ∀ (a b : List (List Simple × List (Rel × List Simple))), beqRL a b = true ↔ a = b
+  | [], b => by cases b <;> simp [beqRL]
+  | (t, r) :: as, b => by
+    cases b with
+    | nil => simp [beqRL]
+    | cons b bs =>
+      obtain ⟨t', r'⟩ := b
+      simp [beqRL, beqSL_iff t t', beqSteps_iff r r', beqRL_iff as bs, and_assoc]
+end
+
+instance : DecidableEq Simple := fun a b =>
+  if h : Simple.beq a b = true then isTrue ((Simple.beq_iff a b).1 h)
+  else isFalse (fun e => h ((Simple.beq_iff a b).2 e))
+
+/-! ### element contexts (DESIGN Appendix C) -/
+
+structure Elem where
+  type    : Name
+  id      : Option Name
+  classes : List Name
+  attrs   : List (Name × Name)
+  flags   : List Name          -- opaque pseudo-classes that hold of the element
+  pe      : Option Name        -- which pseudo-element of its originating element this is
+  deriving DecidableEq, Repr, Inhabited
+
+/-- an element together with its preceding siblings (nearest first) -/
+structure Level where
+  el   : Elem
+  sibs : List Elem
+  deriving DecidableEq, Repr, Inhabited
+
+/-- all that matching can see: the element's level and the levels of its ancestors (nearest first) -/
+structure Ctx where
+  cur : Level
+  anc : List Level
+  deriving DecidableEq, Repr, Inhabited
+
+/-- `[(l[k], l.drop (k+1))]` for every `k` -/
+def splits {α : Type} : List α → List (α × List α)
+  | [] => []
+  | x :: xs => (x, xs) :: splits xs
+
+/-- the contexts reachable from `p` going leftwards over one combinator -/
+def steps : Rel → Ctx → List Ctx
+  | .child, p => match p.anc with
+    | [] => []
+    | l :: anc => [⟨l, anc⟩]
+  | .desc, p => (splits p.anc).map fun (l, anc) => ⟨l, anc⟩
+  | .next, p => match p.cur.sibs with
+    | [] => []
+    | s :: ss => [⟨⟨s, ss⟩, p.anc⟩]
+  | .later, p => (splits p.cur.sibs).map fun (s, ss) => ⟨⟨s, ss⟩, p.anc⟩
+
+def lookupAttr (n : Name) : List (Name × Name) → Option Name
+  | [] => none
+  | (k, v) :: rest => if k = n then some v else lookupAttr n rest
+
+/-! ### matching semantics (CSS Selectors 4 restricted to the alphabet) -/
+mutual
+def mSimple : Simple → Ctx → Bool
+  | .univ, _ => true
+  | .type n, p => decide (p.cur.el.type = n)
+  | .cls n, p => p.cur.el.classes.contains n
+  | .id n, p => decide (p.cur.el.id = some n)
+  | .attr n none, p => (lookupAttr n p.cur.el.attrs).isSome
+  | .attr n (some v), p => decide (lookupAttr n p.cur.el.attrs = some v)
+  | .pclass n, p => p.cur.el.flags.contains n
+  | .pelem n, p => decide (p.cur.el.pe = some n)
+  | .placeholder _, _ => false
+  | .parent _, _ => false
+  | .sel k arg, p =>
+    match k with
+    | .not => !(mArgs arg p)
+    | _ => mArgs arg p
+def mArgs : List (List Simple × List (Rel × List Simple)) → Ctx → Bool
+  | [], _ => false
+  | (t, rest) :: cs, p => (mComp t p && mSteps rest p) || mArgs cs p
+def mSteps : List (Rel × List Simple) → Ctx → Bool
+  | [], _ => true
+  | (r, c) :: rest, p => (steps r p).any fun q => mComp c q && mSteps rest q
+def mComp : List Simple → Ctx → Bool
+  | [], _ => true
+  | s :: ss, p => mSimple s p && mComp ss p
+end
+
+def mRC (r : RComplex) (p : Ctx) : Bool := mComp r.1 p && mSteps r.2 p
+
+/-! ### top-level selectors in grass's shape -/
+
+inductive Component where
+  | comb (c : Comb)
+  | compound (c : Compound)
+  deriving DecidableEq, Repr, Inhabited
+
+abbrev Complex := List Component
+abbrev SelList := List Complex
+
+/-- forward normal form: first compound, then (relation, compound) steps rightwards;
+    `none` for leading/trailing/doubled combinators -/
+def fwd : Complex → Option (Compound × List (Rel × Compound))
+  | [] => none
+  | [.compound c] => some (c, [])
+  | .compound c :: .comb cb :: rest =>
+    match fwd rest with
+    | some (d, ds) => some (c, (cb.rel, d) :: ds)
+    | none => none
+  | .compound c :: .compound d :: rest =>
+    match fwd (.compound d :: rest) with
+    | some (d', ds) => some (c, (.desc, d') :: ds)
+    | none => none
+  | .comb _ :: _ => none
+
+def revGo : Compound → RSteps → List (Rel × Compound) → RComplex
+  | h, acc, [] => (h, acc)
+  | h, acc, (r, c) :: rest => revGo c ((r, h) :: acc) rest
+
+def norm (X : Complex) : Option RComplex :=
+  match fwd X with
+  | some (c, st) => some (revGo c [] st)
+  | none => none
+
+/-- `matches : Complex → Ctx → Bool` — the formal matching semantics the theorems are about -/
+def matchesComplex (X : Complex) (p : Ctx) : Bool :=
+  match norm X with
+  | some r => mRC r p
+  | none => false
+
+def matchesList (L : SelList) (p : Ctx) : Bool := L.any (matchesComplex · p)
+
+def relComps : Rel → List Component
+  | .desc => [] | .child => [.comb .child] | .next => [.comb .next] | .later => [.comb .later]
+
+/-- back from the normal form to grass's component vector -/
+def stepsToComps : RSteps → Complex → Complex
+  | [], acc => acc
+  | (r, c) :: rest, acc => stepsToComps rest (.compound c :: relComps r ++ acc)
+
+def RComplex.toComps (r : RComplex) : Complex := stepsToComps r.2 [.compound r.1]
+
+
+/-! ### specificity (simple.rs:99–119, 615; compound.rs:55; complex.rs:111–129)
+
+  Base 1000.  Note: `ComplexSelector::max_specificity` returns `specificity().min` and
+  `min_specificity` returns `.max` (complex.rs:111/115, names swapped); `Pseudo::specificity`
+  folds over those swapped accessors.  The model keeps that (pairs are `(min, max)`). -/
+def BASE : Nat := 1000
+
+mutual
+def specS : Simple → Nat × Nat
+  | .univ => (0, 0)
+  | .type _ => (1, 1)
+  | .id _ => (BASE * BASE, BASE * BASE)
+  | .pelem _ => (1, 1)
+  | .sel k arg =>
+    match k with
+    | .not => specArgsNot arg
+    | _ => specArgsIs arg
+  | _ => (BASE, BASE)
+/-- `:not`: min = max over complexes of `complex.min_specificity()` (= its `.max`), max likewise of `.min` -/
+def specArgsNot : List (List Simple × List (Rel × List Simple)) → Nat × Nat
+  | [] => (0, 0)
+  | (t, rest) :: cs =>
+    let a := specC t; let b := specSt rest; let r := specArgsNot cs
+    (Nat.max r.1 (a.2 + b.2), Nat.max r.2 (a.1 + b.1))
+def specArgsIs : List (List Simple × List (Rel × List Simple)) → Nat × Nat
+  | [] => (BASE * BASE * BASE, 0)
+  | (t, rest) :: cs =>
+    let a := specC t; let b := specSt rest; let r := specArgsIs cs
+    (Nat.min r.1 (a.2 + b.2), Nat.max r.2 (a.1 + b.1))
+def specSt : List (Rel × List Simple) → Nat × Nat
+  | [] => (0, 0)
+  | (_, c) :: rest => let a := specC c; let r := specSt rest; (a.1 + r.1, a.2 + r.2)
+def specC : List Simple → Nat × Nat
+  | [] => (0, 0)
+  | s :: ss => let a := specS s; let r := specC ss; (a.1 + r.1, a.2 + r.2)
+end
+
+def specComplex : Complex → Nat × Nat
+  | [] => (0, 0)
+  | .comb _ :: rest => specComplex rest
+  | .compound c :: rest => let a := specC c; let r := specComplex rest; (a.1 + r.1, a.2 + r.2)
+
+/-- `ComplexSelector::max_specificity` as written (returns the minimum) -/
+def Complex.maxSpecificity (c : Complex) : Nat := (specComplex c).1
+/-- `ComplexSelector::min_specificity` as written (returns the maximum) -/
+def Complex.minSpecificity (c : Complex) : Nat := (specComplex c).2
+
+/-! ### invisibility (simple.rs:121, compound.rs:65, complex.rs:131, list.rs:69) -/
+mutual
+def invisS : Simple → Bool
+  | .placeholder _ => true
+  | .sel k arg =>
+    match k with
+    | .not => false
+    | _ => invisArgs arg
+  | _ => false
+/-- `SelectorList::is_invisible`: every complex is invisible -/
+def invisArgs : List (List Simple × List (Rel × List Simple)) → Bool
+  | [] => true
+  | (t, rest) :: cs => (invisC t || invisSt rest) && invisArgs cs
+def invisSt : List (Rel × List Simple) → Bool
+  | [] => false
+  | (_, c) :: rest => invisC c || invisSt rest
+def invisC : List Simple → Bool
+  | [] => false
+  | s :: ss => invisS s || invisC ss
+end
+
+def Component.isInvisible : Component → Bool
+  | .comb _ => false
+  | .compound c => invisC c
+def Complex.isInvisible (c : Complex) : Bool := c.any Component.isInvisible
+def SelList.isInvisible (l : SelList) : Bool := l.all Complex.isInvisible
+
+def Simple.isSel : Simple → Bool | .sel _ _ => true | _ => false
+def Simple.isPseudo : Simple → Bool | .sel _ _ => true | .pclass _ => true | .pelem _ => true | _ => false
+def Simple.isPelem : Simple → Bool | .pelem _ => true | _ => false
+def Simple.isUniv : Simple → Bool | .univ => true | _ => false
+def Simple.isType : Simple → Bool | .type _ => true | _ => false
+def Simple.isId : Simple → Bool | .id _ => true | _ => false
+def Simple.isParent : Simple → Bool | .parent _ => true | _ => false
+def Simple.isPlaceholder : Simple → Bool | .placeholder _ => true | _ => false
+
+/-- no selector pseudo (`:not(..)`, `:is(..)` …) among the simples -/
+def noSelC (c : Compound) : Bool := c.all (fun s => !s.isSel)
+def noSelX (x : Complex) : Bool := x.all fun | .comb _ => true | .compound c => noSelC c
+def noSelL (l : SelList) : Bool := l.all noSelX
+
+/-! ### superselector (complex.rs:141, compound.rs:69, simple.rs:359, 493) -/
+
+/-- `SimpleSelector::is_super_selector_of_compound` (simple.rs:359) -/
+def simpleSuperOfCompound (s : Simple) (B : Compound) : Bool :=
+  B.any fun t =>
+    decide (s = t) ||
+    match t with
+    | .sel k arg =>
+      (k != .not) && arg.all (fun r => r.2.isEmpty && r.1.contains s)
+    | _ => false
+
+def lastIsComb (x : Complex) : Bool :=
+  match x.getLast? with
+  | some (.comb _) => true
+  | _ => false
+
+/-- `(compound, sibling combinator)*` — what may be skipped after a `~` in the specified walk -/
+def sibChain : Complex → Bool
+  | [] => true
+  | .compound _ :: .comb c :: rest => c != .child && sibChain rest
+  | _ => false
+
+/-- The check the specified walk adds (it is what later dart-sass versions call
+    `_compatibleWithPreviousCombinator`): components of the subselector may be skipped freely only
+    at the start or after a descendant combinator; after `>`/`+` nothing may be skipped, after `~`
+    only sibling-joined compounds. -/
+def okSkip : Option Rel → Complex → Bool
+  | none, _ => true
+  | some .desc, _ => true
+  | some .child, sk => sk.isEmpty
+  | some .next, sk => sk.isEmpty
+  | some .later, sk => sibChain sk
+
+/-- inner `while` of complex.rs:184–206: first compound of `b` (not its last component) that
+    `c1` is a superselector of; returns (skipped components, that compound, what follows it) -/
+def scan (sup : Compound → Compound → Complex → Bool) (c1 : Compound) :
+    Complex → Complex → Option (Complex × Compound × Complex)
+  | _, [] => none
+  | sk, y :: tl =>
+    match tl with
+    | [] => none
+    | _ :: _ =>
+      match y with
+      | .compound d =>
+        if sup c1 d (sk.drop 1) then some (sk, d, tl) else scan sup c1 (sk ++ [.compound d]) tl
+      | .comb c => scan sup c1 (sk ++ [.comb c]) tl
+
+/-- The index walk of `ComplexSelector::is_super_selector` (complex.rs:149–247) on the suffixes
+    `a = self[i1..]`, `b = other[i2..]`.  `prev` is the combinator of `self` before `a`.
+    `asFound = true` is the code as it stands; `asFound = false` adds `okSkip`. -/
+def walk (asFound : Bool) (sup : Compound → Compound → Complex → Bool) :
+    Option Rel → Complex → Complex → Bool
+  | _, [], _ => false
+  | _, .comb _ :: _, _ => false
+  | prev, [.compound c1], b =>
+    match b with
+    | .compound _ :: _ =>
+      match b.getLast? with
+      | some (.compound d) => (asFound || okSkip prev b.dropLast) && sup c1 d b.dropLast
+      | _ => false
+    | _ => false
+  | prev, .compound c1 :: .comb cb1 :: a', b =>
+    if a'.length + 2 > b.length then false else
+    match b with
+    | .compound _ :: _ =>
+      match scan sup c1 [] b with
+      | none => false
+      | some (sk, _, brest) =>
+        if !(asFound || okSkip prev sk) then false else
+        match brest with
+        | .comb cb2 :: brest' =>
+          if (if cb1 = .later then cb2 = .child else cb1 ≠ cb2) then false
+          else if a'.length + 2 == 3 && b.length > 3 then false
+          else walk asFound sup (some cb1.rel) a' brest'
+        | _ => false
+    | _ => false
+  | prev, .compound c1 :: arest@(.compound _ :: _), b =>
+    if arest.length + 1 > b.length then false else
+    match b with
+    | .compound _ :: _ =>
+      match scan sup c1 [] b with
+      | none => false
+      | some (sk, _, brest) =>
+        if !(asFound || okSkip prev sk) then false else
+        match brest with
+        | .comb cb2 :: brest' =>
+          if cb2 ≠ .child then false else walk asFound sup (some .desc) arest brest'
+        | _ => walk asFound sup (some .desc) arest brest
+    | _ => false
+
+/-- compound superselector without selector pseudos on the left (compound.rs:69 with the
+    `Pseudo{selector: Some}` arm never taken) -/
+def superCompound0 (A B : Compound) : Bool :=
+  A.all (fun s => simpleSuperOfCompound s B) &&
+  B.all (fun t => match t with | .pelem _ => simpleSuperOfCompound t A | _ => true)
+
+mutual
+/-- `CompoundSelector::is_super_selector` (compound.rs:69) -/
+def superCompound : Nat → Bool → Compound → Compound → Complex → Bool
+  | 0, _, _, _, _ => false
+  | f + 1, af, A, B, ps =>
+    A.all (fun s =>
+      match s with
+      | .sel k arg => superPseudo f af k arg B ps
+      | _ => simpleSuperOfCompound s B) &&
+    B.all (fun t => match t with | .pelem _ => simpleSuperOfCompound t A | _ => true)
+/-- `Pseudo::is_super_selector` (simple.rs:493) for `not` and the `is` family -/
+def superPseudo : Nat → Bool → PName → List RComplex → Compound → Complex → Bool
+  | 0, _, _, _, _, _ => false
+  | f + 1, af, k, arg, B, ps =>
+    match k with
+    | .not =>
+      arg.all fun complex =>
+        B.any fun t =>
+          match t with
+          | .type _ => complex.1.any (fun s1 => s1.isType && decide (s1 ≠ t))
+          | .id _ => complex.1.any (fun s1 => s1.isId && decide (s1 ≠ t))
+          | .sel k2 arg2 =>
+            (k2 == .not) && superList f af (arg2.map RComplex.toComps) [complex.toComps]
+          | _ => false
+    | _ =>
+      (B.any fun t =>
+        match t with
+        | .sel k2 arg2 =>
+          (k2 == k) && superList f af (arg.map RComplex.toComps) (arg2.map RComplex.toComps)
+        | _ => false) ||
+      arg.any fun c1 => superComplex f af c1.toComps (ps ++ [.compound B])
+/-- `SelectorList::is_superselector` (list.rs:254) -/
+def superList : Nat → Bool → SelList → SelList → Bool
+  | 0, _, _, _ => false
+  | f + 1, af, L1, L2 => L2.all fun c1 => L1.any fun c2 => superComplex f af c2 c1
+/-- `ComplexSelector::is_super_selector` (complex.rs:141) -/
+def superComplex : Nat → Bool → Complex → Complex → Bool
+  | 0, _, _, _ => false
+  | f + 1, af, A, B =>
+    if lastIsComb A || lastIsComb B then false
+    else walk af (fun c d ps => superCompound f af c d ps) none A B
+end
+
+def sizeC (c : Compound) : Nat := c.length + 1
+def sizeX (x : Complex) : Nat := x.foldl (fun n cp => n + match cp with | .comb _ => 1 | .compound c => sizeC c) 1
+
+/-- the walk on selectors without selector pseudos on the left needs no fuel -/
+def isSuperComplex0 (asFound : Bool) (A B : Complex) : Bool :=
+  if lastIsComb A || lastIsComb B then false
+  else walk asFound (fun c d _ => superCompound0 c d) none A B
+
+def isSuperList0 (asFound : Bool) (L1 L2 : SelList) : Bool :=
+  L2.all fun c1 => L1.any fun c2 => isSuperComplex0 asFound c2 c1
+
+/-! ### unification (simple.rs:174–357, compound.rs:214) -/
+
+/-- `unify_universal_and_element` without namespaces (simple.rs:252) -/
+def unifyUnivAndElement (s other : Simple) : Option Simple :=
+  match s, other with
+  | .univ, .univ => some .univ
+  | .univ, .type b => some (.type b)
+  | .type a, .univ => some (.type a)
+  | .type a, .type b => if a = b then some (.type a) else none
+  | _, _ => none
+
+def insertBeforePseudo (s : Simple) : Compound → Bool → Compound
+  | [], added => if added then [] else [s]
+  | t :: rest, added =>
+    if !added && t.isPseudo then s :: t :: insertBeforePseudo s rest true
+    else t :: insertBeforePseudo s rest added
+
+/-- loop of `unify_pseudo` (simple.rs:330): `s` is pushed before *every* pseudo-element of the
+    compound (there is no `!added_self` test), `none` when `s` itself is a pseudo-element -/
+def pseudoLoop (s : Simple) : Compound → Bool → Option Compound
+  | [], added => some (if added then [] else [s])
+  | t :: rest, added =>
+    if t.isPelem then
+      if s.isPelem then none
+      else (pseudoLoop s rest true).map (fun r => s :: t :: r)
+    else (pseudoLoop s rest added).map (fun r => t :: r)
+
+def unifyUniversal (s : Simple) (comp : Compound) : Option Compound :=
+  match comp with
+  | [] => none      -- `compound[0]` would panic; never reached (compounds are non-empty)
+  | h :: tl =>
+    if h.isUniv || h.isType then (unifyUnivAndElement s h).map (· :: tl)
+    else some comp
+
+def unifyType (s : Simple) (comp : Compound) : Option Compound :=
+  match comp with
+  | [] => none
+  | h :: tl =>
+    if h.isUniv || h.isType then (unifyUnivAndElement s h).map (· :: tl)
+    else some (s :: comp)
+
+def unifyDefault (s : Simple) (comp : Compound) : Option Compound :=
+  match comp with
+  | [.univ] => some [s]          -- `compound.swap_remove(0).unify(vec![self])` → unify_universal → `[self]`
+  | _ => if comp.contains s then some comp else some (insertBeforePseudo s comp false)
+
+def unifyPseudo (s : Simple) (comp : Compound) : Option Compound :=
+  match comp with
+  | [.univ] => some [s]
+  | _ => if comp.contains s then some comp else pseudoLoop s comp false
+
+/-- `SimpleSelector::unify` (simple.rs:174) -/
+def unifySimple (s : Simple) (comp : Compound) : Option Compound :=
+  match s with
+  | .type _ => unifyType s comp
+  | .univ => unifyUniversal s comp
+  | .pclass _ => unifyPseudo s comp
+  | .pelem _ => unifyPseudo s comp
+  | .sel _ _ => unifyPseudo s comp
+  | .id _ => if comp.any (fun t => t.isId && decide (t ≠ s)) then none else unifyDefault s comp
+  | _ => unifyDefault s comp
+
+/-- `CompoundSelector::unify(self = A, other = B)` (compound.rs:214) -/
+def unifyCompound : Compound → Compound → Option Compound
+  | [], B => some B
+  | s :: A, B =>
+    match unifySimple s B with
+    | some B' => unifyCompound A B'
+    | none => none
+
+
+/-! ### parent selector resolution (list.rs:157, compound.rs:109) — shared with nested rules -/
+
+inductive RErr where
+  | topLevelParent        -- "Top-level selectors may not contain the parent selector"
+  | parentIncompatible    -- parent ends in a combinator
+  | invalidSuffix         -- `add_suffix` on a selector that cannot take one
+  | cantAppend            -- selector-append on `*` / a leading combinator
+  | unsupported           -- outside the model (`&` inside a selector pseudo)
+  deriving DecidableEq, Repr, Inhabited
+
+mutual
+def parentInS : Simple → Bool
+  | .parent _ => true
+  | .sel _ arg => parentInArgs arg
+  | _ => false
+def parentInArgs : List (List Simple × List (Rel × List Simple)) → Bool
+  | [] => false
+  | (t, rest) :: cs => parentInC t || parentInSt rest || parentInArgs cs
+def parentInSt : List (Rel × List Simple) → Bool
+  | [] => false
+  | (_, c) :: rest => parentInC c || parentInSt rest
+def parentInC : List Simple → Bool
+  | [] => false
+  | s :: ss => parentInS s || parentInC ss
+end
+
+def Complex.containsParent (x : Complex) : Bool :=
+  x.any fun | .comb _ => false | .compound c => parentInC c
+def SelList.containsParent (l : SelList) : Bool := l.any Complex.containsParent
+
+/-- `&` inside a selector-pseudo argument: not modelled -/
+def parentInPseudoArg (c : Compound) : Bool :=
+  c.any fun | .sel _ arg => parentInArgs arg | _ => false
+
+/-- `SimpleSelector::add_suffix` (simple.rs:136) -/
+def addSuffix (s : Simple) (suffix : Name) : Except RErr Simple :=
+  match s with
+  | .type n => .ok (.type (n ++ suffix))
+  | .placeholder n => .ok (.placeholder (n ++ suffix))
+  | .id n => .ok (.id (n ++ suffix))
+  | .cls n => .ok (.cls (n ++ suffix))
+  | .pclass n => .ok (.pclass (n ++ suffix))
+  | .pelem n => .ok (.pelem (n ++ suffix))
+  | _ => .error .invalidSuffix
+
+/-- one parent complex with the compound `& suffix? rest` attached to its last compound -/
+def attachToParent (suffix : Option Name) (rest : Compound) (pc : Complex) : Except RErr Complex :=
+  match pc.getLast? with
+  | some (.compound last) =>
+    match suffix with
+    | none => .ok (pc.dropLast ++ [.compound (last ++ rest)])
+    | some sfx =>
+      match last.getLast? with
+      | some e =>
+        match addSuffix e sfx with
+        | .ok e' => .ok (pc.dropLast ++ [.compound (last.dropLast ++ [e'] ++ rest)])
+        | .error er => .error er
+      | none => .error .invalidSuffix
+  | _ => .error .parentIncompatible
+
+def mapExcept {α β ε : Type} (f : α → Except ε β) : List α → Except ε (List β)
+  | [] => .ok []
+  | x :: xs =>
+    match f x with
+    | .error e => .error e
+    | .ok y =>
+      match mapExcept f xs with
+      | .error e => .error e
+      | .ok ys => .ok (y :: ys)
+
+/-- `CompoundSelector::resolve_parent_selectors` (compound.rs:109): `ok none` = no `&` here -/
+def resolveCompound (c : Compound) (parent : SelList) : Except RErr (Option (List Complex)) :=
+  if parentInPseudoArg c then .error .unsupported else
+  match c with
+  | .parent suffix :: rest =>
+    if rest.isEmpty && suffix.isNone then .ok (some parent)
+    else
+      match mapExcept (attachToParent suffix rest) parent with
+      | .ok l => .ok (some l)
+      | .error e => .error e
+  | _ => .ok none
+
+/-- body of the `for component in complex.components` loop (list.rs:204–237) -/
+def resolveComponents (parent : SelList) : Complex → List Complex → Except RErr (List Complex)
+  | [], acc => .ok acc
+  | .comb cb :: rest, acc => resolveComponents parent rest (acc.map (· ++ [.comb cb]))
+  | .compound c :: rest, acc =>
+    match resolveCompound c parent with
+    | .error e => .error e
+    | .ok none => resolveComponents parent rest (acc.map (· ++ [.compound c]))
+    | .ok (some resolved) =>
+      resolveComponents parent rest (acc.flatMap fun nc => resolved.map fun rc => nc ++ rc)
+
+def resolveComplex (parent : SelList) (implicit : Bool) (x : Complex) : Except RErr (List Complex) :=
+  if !x.containsParent then
+    if !implicit then .ok [x] else .ok (parent.map (· ++ x))
+  else resolveComponents parent x [[]]
+
+/-- `flatten_vertically` (list.rs:263): round-robin over the queues -/
+def flattenVertically {α : Type} : Nat → List (List α) → List α
+  | 0, _ => []
+  | f + 1, qs =>
+    let qs := qs.filter (fun q => !q.isEmpty)
+    if qs.isEmpty then [] else
+    qs.filterMap List.head? ++ flattenVertically f (qs.map List.tail)
+
+/-- `SelectorList::resolve_parent_selectors` (list.rs:157) -/
+def resolveParent (sel : SelList) (parent : Option SelList) (implicit : Bool) : Except RErr SelList :=
+  match parent with
+  | none => if !sel.containsParent then .ok sel else .error .topLevelParent
+  | some parent =>
+    match mapExcept (resolveComplex parent implicit) sel with
+    | .error e => .error e
+    | .ok ls => .ok (flattenVertically ((ls.map List.length).foldl (· + ·) 1) ls)
+
+/-- what the evaluator does for a style rule `child` nested in a rule whose selector is `parent`
+    (visitor.rs: `resolve_parent_selectors(parent, implicit_parent = true)`; an empty parent
+    selector — the top level — is `None`, selector/mod.rs:34) -/
+def nestedRuleSelector (parent : SelList) (child : SelList) : Except RErr SelList :=
+  resolveParent child (if parent.isEmpty then none else some parent) true
+
+def nestFold : SelList → List SelList → Except RErr SelList
+  | acc, [] => .ok acc
+  | acc, c :: cs =>
+    match nestedRuleSelector acc c with
+    | .error e => .error e
+    | .ok r => nestFold r cs
+
+/-- `selector-nest($selectors...)` (builtin/functions/selector.rs:67) -/
+def selectorNest (sels : List SelList) : Except RErr SelList := nestFold [] sels
+
+/-- `CompoundSelector::prepend_parent` (compound.rs:225) -/
+def prependParent : Compound → Option Compound
+  | [] => none
+  | .univ :: _ => none
+  | .type n :: rest => some (.parent (some n) :: rest)
+  | c => some (.parent none :: c)
+
+def appendChildComplex (x : Complex) : Except RErr Complex :=
+  match x with
+  | .compound c :: rest =>
+    match prependParent c with
+    | some c' => .ok (.compound c' :: rest)
+    | none => .error .cantAppend
+  | _ => .error .cantAppend
+
+def appendFold : SelList → List SelList → Except RErr SelList
+  | acc, [] => .ok acc
+  | acc, c :: cs =>
+    match mapExcept appendChildComplex c with
+    | .error e => .error e
+    | .ok c' =>
+      match resolveParent c' (if acc.isEmpty then none else some acc) false with
+      | .error e => .error e
+      | .ok r => appendFold r cs
+
+/-- `selector-append($selectors...)` (builtin/functions/selector.rs:88) -/
+def selectorAppend : List SelList → Except RErr SelList
+  | [] => .error .cantAppend
+  | first :: rest => appendFold first rest
+
+/-! ### printer (Display impls: simple.rs:75, 446; compound.rs:19; complex.rs:78; list.rs:45) -/
+
+def PName.text : PName → Name
+  | .not => "not".toList | .is => "is".toList | .where_ => "where".toList
+  | .matches => "matches".toList | .any => "any".toList
+
+def relText : Rel → List Char
+  | .desc => [' '] | .child => " > ".toList | .next => " + ".toList | .later => " ~ ".toList
+
+mutual
+def renderS : Simple → List Char
+  | .univ => ['*']
+  | .type n => n
+  | .cls n => '.' :: n
+  | .id n => '#' :: n
+  | .attr n none => '[' :: n ++ [']']
+  | .attr n (some v) => '[' :: n ++ '=' :: v ++ [']']
+  | .pclass n => ':' :: n
+  | .pelem n => ':' :: ':' :: n
+  | .placeholder n => '%' :: n
+  | .parent none => ['&']
+  | .parent (some sfx) => '&' :: sfx
+  | .sel k arg => ':' :: k.text ++ '(' :: renderArgs arg ++ [')']
+def renderArgs : List (List Simple × List (Rel × List Simple)) → List Char
+  | [] => []
+  | [(t, rest)] => renderSt rest (renderC t)
+  | (t, rest) :: c :: cs => renderSt rest (renderC t) ++ ',' :: ' ' :: renderArgs (c :: cs)
+def renderSt : List (Rel × List Simple) → List Char → List Char
+  | [], acc => acc
+  | (r, c) :: rest, acc => renderSt rest (renderC c ++ relText r ++ acc)
+def renderC : List Simple → List Char
+  | [] => []
+  | s :: ss => renderS s ++ renderC ss
+end
+
+def renderComponent : Component → List Char
+  | .comb .child => ['>'] | .comb .next => ['+'] | .comb .later => ['~']
+  | .compound c => renderC c
+
+def renderComplex (x : Complex) : List Char := [' '].intercalate (x.map renderComponent)
+def renderList (l : SelList) : List Char := ", ".toList.intercalate (l.map renderComplex)
+
+/-- what reaches the CSS: invisible complexes are filtered out (list.rs:47) -/
+def serialise (l : SelList) : List Char := renderList (l.filter (fun c => !c.isInvisible))
+
+/-! ### parser for the same syntax (parse.rs:76–398 restricted to the modelled alphabet) -/
+
+def isIdentStart (c : Char) : Bool := c.isAlpha || c == '_' || c == '-'
+def isIdentChar (c : Char) : Bool := c.isAlphanum || c == '_' || c == '-'
+def isWs (c : Char) : Bool := c == ' ' || c == '\n' || c == '\t' || c == '\r'
+
+def skipWs : List Char → List Char
+  | c :: cs => if isWs c then skipWs cs else c :: cs
+  | [] => []
+
+def spanIdent : List Char → Name × List Char
+  | c :: cs => if isIdentChar c then let r := spanIdent cs; (c :: r.1, r.2) else ([], c :: cs)
+  | [] => ([], [])
+
+def pIdent (cs : List Char) : Option (Name × List Char) :=
+  match cs with
+  | c :: _ => if isIdentStart c then some (spanIdent cs) else none
+  | [] => none
+
+def pnameOf (n : Name) : Option PName :=
+  if n = "not".toList then some .not else if n = "is".toList then some .is
+  else if n = "where".toList then some .where_ else if n = "matches".toList then some .matches
+  else if n = "any".toList then some .any else none
+
+/-- `is_fake_pseudo_element` (parse.rs:479), lower-case only -/
+def isFakePelem (n : Name) : Bool :=
+  n = "after".toList || n = "before".toList || n = "first-line".toList || n = "first-letter".toList
+
+def isSimpleStart (c : Char) : Bool := c == '[' || c == '.' || c == '#' || c == '%' || c == ':'
+
+def spanUntilQuote (q : Char) : List Char → Option (Name × List Char)
+  | [] => none
+  | c :: cs =>
+    if c == q then some ([], cs)
+    else if c == '\\' then none
+    else (spanUntilQuote q cs).map fun r => (c :: r.1, r.2)
+
+def pAttr (cs : List Char) : Option (Simple × List Char) :=
+  match pIdent (skipWs cs) with
+  | none => none
+  | some (n, r) =>
+    match skipWs r with
+    | ']' :: r' => some (.attr n none, r')
+    | '=' :: r' =>
+      let r' := skipWs r'
+      let val : Option (Name × List Char) :=
+        match r' with
+        | '"' :: r'' => spanUntilQuote '"' r''
+        | '\'' :: r'' => spanUntilQuote '\'' r''
+        | _ => pIdent r'
+      match val with
+      | some (v, r'') =>
+        match skipWs r'' with
+        | ']' :: r3 => if v.all isIdentChar && !v.isEmpty then some (.attr n (some v), r3) else none
+        | _ => none
+      | none => none
+    | _ => none
+
+def normAll : SelList → Option (List RComplex)
+  | [] => some []
+  | x :: xs =>
+    match norm x, normAll xs with
+    | some r, some rs => some (r :: rs)
+    | _, _ => none
+
+mutual
+def pSimple : Nat → List Char → Option (Simple × List Char)
+  | 0, _ => none
+  | f + 1, cs =>
+    match cs with
+    | '*' :: r => some (.univ, r)
+    | '.' :: r => (pIdent r).map fun (n, r') => (.cls n, r')
+    | '#' :: r => (pIdent r).map fun (n, r') => (.id n, r')
+    | '%' :: r => (pIdent r).map fun (n, r') => (.placeholder n, r')
+    | '[' :: r => pAttr r
+    | '&' :: r => let sp := spanIdent r; some (.parent (if sp.1.isEmpty then none else some sp.1), sp.2)
+    | ':' :: ':' :: r =>
+      match pIdent r with
+      | some (_, '(' :: _) => none
+      | some (n, r') => some (.pelem n, r')
+      | none => none
+    | ':' :: r =>
+      match pIdent r with
+      | some (n, '(' :: r') =>
+        match pnameOf n with
+        | none => none
+        | some k =>
+          match pList f (skipWs r') with
+          | some (l, r'') =>
+            match skipWs r'', normAll l with
+            | ')' :: r3, some args => some (.sel k args, r3)
+            | _, _ => none
+          | none => none
+      | some (n, r') => if isFakePelem n then some (.pelem n, r') else some (.pclass n, r')
+      | none => none
+    | c :: _ => if isIdentStart c then (pIdent cs).map fun (n, r') => (.type n, r') else none
+    | [] => none
+def pCompoundRest : Nat → List Char → Option (Compound × List Char)
+  | 0, _ => none
+  | f + 1, cs =>
+    match cs with
+    | c :: _ =>
+      if isSimpleStart c then
+        match pSimple f cs with
+        | some (s, r) => (pCompoundRest f r).map fun (ss, r') => (s :: ss, r')
+        | none => none
+      else if c == '&' || c == '*' then none
+      else some ([], cs)
+    | [] => some ([], [])
+def pCompound : Nat → List Char → Option (Compound × List Char)
+  | 0, _ => none
+  | f + 1, cs =>
+    match pSimple f cs with
+    | some (s, r) => (pCompoundRest f r).map fun (ss, r') => (s :: ss, r')
+    | none => none
+def pComplexRest : Nat → List Char → Option (Complex × List Char)
+  | 0, _ => none
+  | f + 1, cs =>
+    match skipWs cs with
+    | '>' :: r => (pComplexRest f r).map fun (x, r') => (.comb .child :: x, r')
+    | '+' :: r => (pComplexRest f r).map fun (x, r') => (.comb .next :: x, r')
+    | '~' :: r => (pComplexRest f r).map fun (x, r') => (.comb .later :: x, r')
+    | c :: r =>
+      if isSimpleStart c || c == '&' || c == '*' || isIdentStart c then
+        match pCompound f (c :: r) with
+        | some (cp, r') => (pComplexRest f r').map fun (x, r'') => (.compound cp :: x, r'')
+        | none => none
+      else some ([], c :: r)
+    | [] => some ([], [])
+def pList : Nat → List Char → Option (SelList × List Char)
+  | 0, _ => none
+  | f + 1, cs =>
+    match pComplexRest f cs with
+    | some (x, r) =>
+      if x.isEmpty then none else
+      match skipWs r with
+      | ',' :: r' => (pList f r').map fun (l, r'') => (x :: l, r'')
+      | r' => some ([x], r')
+    | none => none
+end
+
+def parseSelList (cs : List Char) : Option SelList :=
+  match pList (4 * cs.length + 16) cs with
+  | some (l, r) => if (skipWs r).isEmpty then some l else none
+  | none => none
+
+
+/-! ### the bounded context universe (DESIGN Appendix C) — driver side, not theorem-facing -/
+
+def nm (s : String) : Name := s.toList
+
+def neutralElem : Elem := { type := nm "c", id := none, classes := [], attrs := [], flags := [], pe := none }
+
+/-- the element carrying exactly the features the (positive, non-nested) simples require -/
+def elemOf (c : Compound) : Elem :=
+  c.foldl (fun e s =>
+    match s with
+    | .type n => { e with type := n }
+    | .cls n => if e.classes.contains n then e else { e with classes := e.classes ++ [n] }
+    | .id n => { e with id := some n }
+    | .attr n none => if (lookupAttr n e.attrs).isSome then e else { e with attrs := e.attrs ++ [(n, nm "v")] }
+    | .attr n (some v) => { e with attrs := (n, v) :: e.attrs.filter (fun kv => kv.1 ≠ n) }
+    | .pclass n => if e.flags.contains n then e else { e with flags := e.flags ++ [n] }
+    | .pelem n => { e with pe := some n }
+    | _ => e) neutralElem
+
+/-- a context under construction: lines (element, then its preceding siblings, nearest first) of the
+    target level and of each ancestor; the "current position" is the last element of the last line -/
+abbrev Lines := List (List Elem)
+
+def linesToCtx : Lines → Option Ctx
+  | [] => none
+  | l :: ls =>
+    match l with
+    | [] => none
+    | e :: sibs => some ⟨⟨e, sibs⟩, ls.filterMap fun | [] => none | a :: ss => some ⟨a, ss⟩⟩
+
+def ctxToLines (p : Ctx) : Lines :=
+  (p.cur.el :: p.cur.sibs) :: p.anc.map fun l => l.el :: l.sibs
+
+def appendToLast (ls : Lines) (es : List Elem) : Lines :=
+  match ls.reverse with
+  | [] => [es]
+  | l :: rest => (((l ++ es) :: rest).reverse)
+
+/-- canonical minimal contexts of a normal-form complex: descendant gaps filled with 0 or 1
+    neutral ancestors, `~` realised with 0 or 1 intervening siblings -/
+def canonSteps : RSteps → Lines → List Lines
+  | [], ls => [ls]
+  | (r, c) :: rest, ls =>
+    let e := elemOf c
+    match r with
+    | .child => canonSteps rest (ls ++ [[e]])
+    | .desc => canonSteps rest (ls ++ [[e]]) ++ canonSteps rest (ls ++ [[neutralElem], [e]])
+    | .next => canonSteps rest (appendToLast ls [e])
+    | .later => canonSteps rest (appendToLast ls [e]) ++ canonSteps rest (appendToLast ls [neutralElem, e])
+
+/-- alternatives of a compound: each `:is(…)`-family pseudo replaced by the target compound of one
+    of its arguments (one level deep), together with that argument's own steps -/
+def expandCompound (c : Compound) : List (Compound × RSteps) :=
+  let plain := c.filter (fun s => !s.isSel)
+  let alts : List (Compound × RSteps) := c.flatMap fun s =>
+    match s with
+    | .sel k arg => if k == .not then [] else arg.map fun r => (plain ++ r.1, r.2)
+    | _ => []
+  (plain, []) :: alts
+
+def canonRC (r : RComplex) : List Lines :=
+  (expandCompound r.1).flatMap fun (t, extra) =>
+    canonSteps (if r.2.isEmpty then extra else r.2) [[elemOf t]] ++
+    (if r.2.isEmpty || extra.isEmpty then [] else canonSteps extra [[elemOf t]])
+
+mutual
+def innerArgsS : Simple → List RComplex
+  | .sel _ arg => arg ++ innerArgsA arg
+  | _ => []
+def innerArgsA : List (List Simple × List (Rel × List Simple)) → List RComplex
+  | [] => []
+  | (t, rest) :: cs => innerArgsC t ++ innerArgsSt rest ++ innerArgsA cs
+def innerArgsSt : List (Rel × List Simple) → List RComplex
+  | [] => []
+  | (_, c) :: rest => innerArgsC c ++ innerArgsSt rest
+def innerArgsC : List Simple → List RComplex
+  | [] => []
+  | s :: ss => innerArgsS s ++ innerArgsC ss
+end
+
+def canonList (l : SelList) : List Lines :=
+  l.flatMap fun x =>
+    match norm x with
+    | some r => canonRC r ++ (innerArgsC r.1 ++ innerArgsSt r.2).flatMap canonRC
+    | none => []
+
+def setAt {α : Type} (l : List α) (i : Nat) (x : α) : List α := l.take i ++ x :: l.drop (i + 1)
+def insertAt {α : Type} (l : List α) (i : Nat) (x : α) : List α := l.take i ++ x :: l.drop i
+
+def toggle (l : List Name) (n : Name) : List Name := if l.contains n then l.filter (· ≠ n) else l ++ [n]
+
+/-- single-feature variants of an element over the alphabet of Appendix C -/
+def elemVariants (e : Elem) : List Elem :=
+  [ { e with type := nm "a" }, { e with type := nm "b" },
+    { e with classes := toggle e.classes (nm "x") }, { e with classes := toggle e.classes (nm "y") },
+    { e with id := none }, { e with id := some (nm "i") }, { e with id := some (nm "j") },
+    { e with attrs := [] }, { e with attrs := [(nm "t", nm "v")] }, { e with attrs := [(nm "t", nm "w")] },
+    { e with flags := toggle e.flags (nm "hover") }, { e with flags := toggle e.flags (nm "focus") },
+    { e with pe := none }, { e with pe := some (nm "before") }, { e with pe := some (nm "after") } ].filter (· ≠ e)
+
+def perturbLines (ls : Lines) : List Lines :=
+  let idx := List.range ls.length
+  let feature := idx.flatMap fun i =>
+    let line := ls.getD i []
+    (List.range line.length).flatMap fun j =>
+      (elemVariants (line.getD j neutralElem)).map fun e' => setAt ls i (setAt line j e')
+  let insSib := idx.flatMap fun i =>
+    let line := ls.getD i []
+    (List.range (line.length + 1)).filterMap fun j =>
+      if j == 0 then none else some (setAt ls i (insertAt line j neutralElem))
+  let dropSib := idx.flatMap fun i =>
+    let line := ls.getD i []
+    (List.range line.length).filterMap fun j =>
+      if j == 0 then none else some (setAt ls i (line.take j ++ line.drop (j + 1)))
+  let insLine := (List.range (ls.length + 1)).filterMap fun i =>
+    if i == 0 then none else some (insertAt ls i [neutralElem])
+  let dropLine := idx.filterMap fun i => if i == 0 then none else some (ls.take i ++ ls.drop (i + 1))
+  feature ++ insSib ++ dropSib ++ insLine ++ dropLine
+
+def lcg (s : Nat) : Nat := (s * 6364136223846793005 + 1442695040888963407) % 18446744073709551616
+def pick (s : Nat) (n : Nat) : Nat := (s / 4294967296) % n
+
+def randElem (s : Nat) : Elem × Nat :=
+  let s1 := lcg s; let s2 := lcg s1; let s3 := lcg s2; let s4 := lcg s3; let s5 := lcg s4; let s6 := lcg s5
+  let ty := if pick s1 2 == 0 then nm "a" else nm "b"
+  let cl := match pick s2 4 with | 0 => [] | 1 => [nm "x"] | 2 => [nm "y"] | _ => [nm "x", nm "y"]
+  let id := match pick s3 3 with | 0 => none | 1 => some (nm "i") | _ => some (nm "j")
+  let at_ := match pick s4 4 with | 0 => [] | 1 => [] | 2 => [(nm "t", nm "v")] | _ => [(nm "t", nm "w")]
+  let fl := match pick s5 4 with | 0 => [] | 1 => [nm "hover"] | 2 => [nm "focus"] | _ => [nm "hover", nm "focus"]
+  let pe := match pick s6 8 with | 0 => some (nm "before") | 1 => some (nm "after") | _ => none
+  ({ type := ty, id := id, classes := cl, attrs := at_, flags := fl, pe := pe }, s6)
+
+def randLine : Nat → Nat → List Elem × Nat
+  | 0, s => ([], s)
+  | n + 1, s => let (e, s') := randElem s; let (es, s'') := randLine n s'; (e :: es, s'')
+
+def randLinesN : Nat → Nat → Lines × Nat
+  | 0, s => ([], s)
+  | n + 1, s =>
+    let s1 := lcg s
+    let (line, s2) := randLine (1 + pick s1 3) s1
+    let (rest, s3) := randLinesN n s2
+    (line :: rest, s3)
+
+def randCtxs : Nat → Nat → List Lines
+  | 0, _ => []
+  | n + 1, s =>
+    let s1 := lcg s
+    let (ls, s2) := randLinesN (1 + pick s1 4) s1
+    ls :: randCtxs n s2
+
+/-- every single element over the alphabet (thorough tier: complete depth-0 universe) -/
+def allElems : List Elem :=
+  [nm "a", nm "b"].flatMap fun ty =>
+  [[], [nm "x"], [nm "y"], [nm "x", nm "y"]].flatMap fun cl =>
+  [none, some (nm "i"), some (nm "j")].flatMap fun id =>
+  [[], [(nm "t", nm "v")], [(nm "t", nm "w")]].flatMap fun at_ =>
+  [[], [nm "hover"], [nm "focus"], [nm "hover", nm "focus"]].flatMap fun fl =>
+  [none, some (nm "before"), some (nm "after")].map fun pe =>
+    ({ type := ty, id := id, classes := cl, attrs := at_, flags := fl, pe := pe } : Elem)
+
+/-- the contexts a verdict is computed over: canonical minimal contexts of the selectors involved,
+    their perturbations, `nrand` pseudo-random contexts; `exh` adds every single-element context -/
+def ctxUniverse (sels : List SelList) (seed nrand : Nat) (exh : Bool) : List Ctx :=
+  let canon := sels.flatMap canonList
+  let all := canon ++ canon.flatMap perturbLines ++ randCtxs nrand seed ++
+    (if exh then allElems.map (fun e => [[e]]) else [])
+  all.filterMap linesToCtx
+
+/-! ### text form of contexts: levels separated by `/`, elements of a level by `,`, an element is
+    written as a compound selector (`a#i.x[t=v]:hover::before`) -/
+
+def elemText (e : Elem) : List Char :=
+  e.type ++ (match e.id with | some i => '#' :: i | none => []) ++
+  e.classes.flatMap (fun c => '.' :: c) ++
+  e.attrs.flatMap (fun (k, v) => '[' :: k ++ '=' :: v ++ [']']) ++
+  e.flags.flatMap (fun f => ':' :: f) ++
+  (match e.pe with | some p => ':' :: ':' :: p | none => [])
+
+def ctxText (p : Ctx) : List Char :=
+  ['/'].intercalate ((ctxToLines p).map fun line => [','].intercalate (line.map elemText))
+
+def splitOnC (c : Char) : List Char → List (List Char)
+  | [] => [[]]
+  | x :: xs =>
+    match splitOnC c xs with
+    | [] => [[]]
+    | h :: t => if x == c then [] :: h :: t else (x :: h) :: t
+
+def parseElem (cs : List Char) : Option Elem :=
+  match pCompound (4 * cs.length + 8) cs with
+  | some (c, []) => if noSelC c then some (elemOf c) else none
+  | _ => none
+
+def parseCtx (cs : List Char) : Option Ctx :=
+  let lines := (splitOnC '/' cs).map fun l => (splitOnC ',' l).mapM parseElem
+  match lines.mapM id with
+  | some ls => linesToCtx ls
+  | none => none
+
+/-! ### driver entry points -/
+open Grass.Proto
+
+def fuelFor (ls : List SelList) : Nat := 4 * (ls.map (fun l => (renderList l).length)).foldl (· + ·) 0 + 16
+
+def isSuperList (af : Bool) (L1 L2 : SelList) : Bool := superList (fuelFor [L1, L2]) af L1 L2
+
+def decodeSel (h : String) : Option SelList :=
+  match hexDecode h with
+  | some s => parseSelList s.toList
+  | none => none
+
+def encodeChars (cs : List Char) : String := hexEncode (String.ofList cs)
+
+def rerrStr : RErr → String
+  | .topLevelParent => "top-level-parent" | .parentIncompatible => "parent-incompatible"
+  | .invalidSuffix => "invalid-suffix" | .cantAppend => "cant-append" | .unsupported => "unsupported"
+
+/-- first context of the universe on which `pred` fails; counts how many contexts satisfied `guard` -/
+def firstFailing (u : List Ctx) (guard pred : Ctx → Bool) : Option Ctx × Nat :=
+  u.foldl (fun (acc : Option Ctx × Nat) p =>
+    match acc.1 with
+    | some _ => acc
+    | none => if guard p then (if pred p then (none, acc.2 + 1) else (some p, acc.2)) else acc) (none, 0)
+
+def verdict (u : List Ctx) (guard pred : Ctx → Bool) : String :=
+  match firstFailing u guard pred with
+  | (some p, _) => "ok fails " ++ encodeChars (ctxText p)
+  | (none, n) => s!"ok holds {u.length} {n}"
+
+/-- single compound of a one-complex, one-component list -/
+def singleCompound : SelList → Option Compound
+  | [[.compound c]] => some c
+  | _ => none
+
+def singleCompounds (l : SelList) : Option (List Compound) :=
+  l.mapM fun x => match x with | [.compound c] => some c | _ => none
+
 def handle : List String → String
+  | ["parse", a] =>
+    match decodeSel a with
+    | some l => "ok " ++ encodeChars (renderList l)
+    | none => "unsupported"
+  | ["eqast", a, b] =>
+    match decodeSel a, decodeSel b with
+    | some x, some y => "ok " ++ boolStr (decide (x = y))
+    | _, _ => "unsupported"
+  | ["super", af, a, b] =>
+    match parseBool? af, decodeSel a, decodeSel b with
+    | some af, some x, some y => "ok " ++ boolStr (isSuperList af x y) ++ " " ++ boolStr (noSelL x)
+    | none, _, _ => "bad-op"
+    | _, _, _ => "unsupported"
+  | ["subset", a, b, seed, n, exh] =>
+    -- P̂ for is-superselector: every context matched by b is matched by a
+    match decodeSel a, decodeSel b, seed.toNat?, n.toNat?, parseBool? exh with
+    | some x, some y, some seed, some n, some exh =>
+      verdict (ctxUniverse [y, x] seed n exh) (matchesList y) (matchesList x)
+    | _, _, none, _, _ => "bad-op"
+    | _, _, _, none, _ => "bad-op"
+    | _, _, _, _, none => "bad-op"
+    | _, _, _, _, _ => "unsupported"
+  | ["inter", c, a, b, seed, n, exh] =>
+    -- P̂ for selector-unify: every context matched by c is matched by a and by b
+    match decodeSel c, decodeSel a, decodeSel b, seed.toNat?, n.toNat?, parseBool? exh with
+    | some z, some x, some y, some seed, some n, some exh =>
+      verdict (ctxUniverse [z, x, y] seed n exh) (matchesList z) (fun p => matchesList x p && matchesList y p)
+    | _, _, _, none, _, _ => "bad-op"
+    | _, _, _, _, none, _ => "bad-op"
+    | _, _, _, _, _, none => "bad-op"
+    | _, _, _, _, _, _ => "unsupported"
+  | ["empty-inter", a, b, seed, n, exh] =>
+    -- P̂ for a `null` from selector-unify on compounds: no context matched by both
+    match decodeSel a, decodeSel b, seed.toNat?, n.toNat?, parseBool? exh with
+    | some x, some y, some seed, some n, some exh =>
+      verdict (ctxUniverse [x, y] seed n exh) (fun _ => true) (fun p => !(matchesList x p && matchesList y p))
+    | _, _, none, _, _ => "bad-op"
+    | _, _, _, none, _ => "bad-op"
+    | _, _, _, _, none => "bad-op"
+    | _, _, _, _, _ => "unsupported"
+  | ["equiv", a, b, seed, n, exh] =>
+    match decodeSel a, decodeSel b, seed.toNat?, n.toNat?, parseBool? exh with
+    | some x, some y, some seed, some n, some exh =>
+      verdict (ctxUniverse [x, y] seed n exh) (fun p => matchesList x p || matchesList y p)
+        (fun p => matchesList x p == matchesList y p)
+    | _, _, none, _, _ => "bad-op"
+    | _, _, _, none, _ => "bad-op"
+    | _, _, _, _, none => "bad-op"
+    | _, _, _, _, _ => "unsupported"
+  | ["matches", a, ctx] =>
+    match decodeSel a, (hexDecode ctx).bind (fun s => parseCtx s.toList) with
+    | some x, some p => "ok " ++ boolStr (matchesList x p)
+    | _, _ => "unsupported"
+  | ["unify", a, b] =>
+    -- model of selector-unify on two single compounds
+    match (decodeSel a).bind singleCompound, (decodeSel b).bind singleCompound with
+    | some x, some y =>
+      match unifyCompound x y with
+      | some c => "ok " ++ encodeChars (renderC c)
+      | none => "ok null"
+    | _, _ => "unsupported"
+  | "nest" :: args =>
+    match args.mapM decodeSel with
+    | some ls =>
+      match selectorNest ls with
+      | .ok r => "ok " ++ encodeChars (renderList r)
+      | .error .unsupported => "unsupported"
+      | .error e => "err " ++ rerrStr e
+    | none => "unsupported"
+  | "append" :: args =>
+    match args.mapM decodeSel with
+    | some ls =>
+      match selectorAppend ls with
+      | .ok r => "ok " ++ encodeChars (renderList r)
+      | .error .unsupported => "unsupported"
+      | .error e => "err " ++ rerrStr e
+    | none => "unsupported"
+  | ["spec", a] =>
+    match decodeSel a with
+    | some l => "ok " ++ " ".intercalate (l.map fun x => s!"{(specComplex x).1}:{(specComplex x).2}")
+    | none => "unsupported"
+  | ["visible", a] =>
+    match decodeSel a with
+    | some l => "ok " ++ encodeChars (serialise l)
+    | none => "unsupported"
   | _ => "bad-op"
 
 end Grass.Selector
